@@ -22,10 +22,11 @@ PLANS = {
     "C02": dict(
         quick=dict(mc=["core2"], gens=[dict(maxlog=2, num=60, depth=24, lean=True, focus="commit"),
                                        dict(maxlog=2, num=500, depth=28, lean=True, focus="overlay", top=40, templates=True)],
-                   per_beh=2, fs=[1, 1, 19, 21, 25], vts=["tiny", "edge", "ovf"], embs=api.EMBEDDINGS_QUICK),
+                   per_beh=2, fs=[1, 1, 19, 21, 25], vts=["tiny", "edge", "ovf"], embs=api.EMBEDDINGS_QUICK, wide=dict(runs=2, fs=[2000, 2400])),
         thorough=dict(mc=["core", "core2"], gens=[dict(maxlog=2, num=600, depth=30, lean=True, focus="commit"),
                                                   dict(maxlog=2, num=3000, depth=30, lean=True, focus="overlay", top=300, templates=True)],
-                      per_beh=5, fs=[1, 3, 19, 20, 21, 25, 400], vts=["tiny", "edge", "ovf"], embs=api.EMBEDDINGS_ALL)),
+                      per_beh=5, fs=[1, 3, 19, 20, 21, 25, 400], vts=["tiny", "edge", "ovf"], embs=api.EMBEDDINGS_ALL,
+                      wide=dict(runs=8, fs=[1500, 2000, 2400, 3000]))),
     "C05": dict(
         quick=dict(mc=["ovl"], gens=[dict(maxlog=2, num=400, depth=26, lean=True, focus="overlay", top=40, templates=True),
                                      dict(maxlog=2, num=40, depth=22, lean=True, focus="reopen")],
